@@ -487,6 +487,40 @@ def rule_parser(ctx, mod, sh, mean, model):
             bad.append((spelled, a_, short_form, b_))
     ctx.check(not bad, R, "aliases-in-compounds", fi.where(), "from_shorthand(<polychords whose parts use the same alias>) vs the short spellings",
               "%d of %d differ, e.g. %s" % (len(bad), len(pairs), bad[:2]))
+    # (l2) polychords of three and four parts: X|Y|Z is X over (Y over Z) -- the notes of the last part first
+    def merged2(first, then):
+        r = list(first)
+        for n_ in then:
+            if r == [] or n_ != r[-1]:
+                r.append(n_)
+        return r
+    bad = []
+    chains = [("Am", "Dm", "G"), ("C", "F#7", "Bb"), ("Em7", "A7", "DM7"), ("F", "G", "Am", "C"), ("Bbm", "Eb7", "AbM7"), ("C/E", "Dm", "G7"), ("Am", "Dm/F", "G")]
+    def real(text):
+        # (the library's own interval code all the way down: every note is a text, the no-repeat comparisons are decided)
+        try:
+            ps_ = paths_of(ctx.repo, fi, [text], max_depth=60)
+        except (CannotDecide, nd.Shape) as e:
+            raise AnalysisError("from_shorthand(%r): %s" % (text, e))
+        if len(ps_) != 1:
+            raise AnalysisError("from_shorthand(%r): %d outcomes for a concrete text" % (text, len(ps_)))
+        p_ = ps_[0]
+        if p_.kind == "return" and isinstance(p_.value, list):
+            return ("chord", list(p_.value))
+        return ("rejected", None) if p_.kind == "raise" and p_.value in ("FormatError", "NoteFormatError") else (p_.kind, short(repr(p_.value), 60))
+    for parts in chains:
+        singles = [real(p_) for p_ in parts]
+        if any(v_[0] != "chord" for v_ in singles):
+            bad.append(("|".join(parts), "a part is rejected", singles))
+            continue
+        want = list(singles[-1][1])
+        for v_ in reversed(singles[:-1]):
+            want = merged2(want, v_[1])
+        got = real("|".join(parts))
+        if got != ("chord", want):
+            bad.append(("|".join(parts), got, "expected", want))
+    ctx.check(not bad, R, "polychord.chains", fi.where(), "from_shorthand(<X|Y|Z and X|Y|Z|W>) for %d texts" % len(chains),
+              "%d are not the last part's notes followed by the parts before it, e.g. %s" % (len(bad), bad[:2]))
     # (m) a slash chord is the bass followed by the chord, whatever the bass is: also a note of the chord, also its root
     bad = []
     slashes = [("C", "C"), ("C", "G"), ("Cm7", "C"), ("Cm7", "Bb"), ("F#", "F#"), ("Bbm", "Bb"), ("Am", "E"), ("G7", "G"), ("Ebdim", "Eb"), ("D6/9", "D")]
